@@ -180,12 +180,11 @@ theorem detrend_roundtrip (reg : Reg) (s s1 : Det) (z zt : Series)
         by_cases hnd : (labels z').Nodup
         · simp only [hnd, decide_true, Bool.not_true, Bool.false_eq_true, ↓reduceIte] at h
           cases htr : fc.train with
-          | none => cases hh : fc.y.head? <;> simp [htr, hh] at h
+          | none => cases hh : fc.origin <;> simp [htr, hh] at h
           | some tv =>
-            cases hh : fc.y.head? with
+            cases hh : fc.origin with
             | none => simp [htr, hh] at h
             | some o =>
-              obtain ⟨o, ov⟩ := o
               simp only [htr, hh, Prod.mk.injEq, Out.ser.injEq] at h
               obtain ⟨hs1, hzt⟩ := h
               subst hs1
@@ -194,7 +193,7 @@ theorem detrend_roundtrip (reg : Reg) (s s1 : Det) (z zt : Series)
               unfold detApply
               simp only [Bool.not_true, Bool.false_eq_true, ↓reduceIte]
               rw [checkSeries_labels false z' zt hl hcs]
-              simp only [hl, hnd, decide_true, Bool.not_true, Bool.false_eq_true, ↓reduceIte, hh]
+              simp only [hl, hnd, decide_true, Bool.not_true, Bool.false_eq_true, ↓reduceIte]
               rw [← hzt]
               simp only [List.map_map, Function.comp_def, vadd_vsub, Prod.mk.eta, List.map_id']
         · simp [hnd] at h
@@ -229,9 +228,9 @@ theorem detrend_trend_is_function_of_label (reg : Reg) (s : Det) :
         · simp only [hfc, htr] at h
           split at h
           · simp at h
-          · cases fc.y.head? <;> simp at h
+          · cases fc.origin <;> simp at h
     | some tv =>
-      cases hh : fc.y.head? with
+      cases hh : fc.origin with
       | none =>
         refine ⟨fun _ => 0, ?_⟩
         intro inv z s' out h
@@ -243,7 +242,7 @@ theorem detrend_trend_is_function_of_label (reg : Reg) (s : Det) :
           · simp only [hfc, htr, hh] at h
             split at h <;> simp at h
       | some o =>
-        refine ⟨fun l => reg s.degree tv (l - o.1), ?_⟩
+        refine ⟨fun l => reg s.degree tv (l - o), ?_⟩
         intro inv z s' out h
         unfold detApply at h
         split at h
@@ -259,64 +258,40 @@ theorem detrend_trend_is_function_of_label (reg : Reg) (s : Det) :
             · simp only [Prod.mk.injEq, Out.ser.injEq] at h
               exact h.2.symm
 
-/-
-FULL STATEMENT: an `update(update_params=False)` that succeeds re-estimates nothing, so it changes no
-later transform / inverse_transform result of the detrender (hence a stretch detrended before it is
-restored exactly after it).
-
-FALSE for the code as it stands (`detrend_update_earlier_batch_moves_trend` below):
-`PolynomialTrendForecaster._predict` reads the origin of the regression axis from the CURRENT
-`_y.index[0]`, and `update` puts an earlier batch in front of `_y`.  Proved under the excluding
-hypothesis that no point of the batch lies before the first remembered time point.
--/
-theorem detrend_update_without_refit_keeps_trend_partial (reg : Reg) (s s' : Det) (fc : Fc) (o : Int × Val)
-    (z : Series) (hfc : s.fc = some fc) (ho : fc.y.head? = some o) (hlate : ∀ p ∈ z, o.1 ≤ p.1)
-    (hupd : detUpdate s (.series z) false = (s', .ok)) (inv : Bool) (inp : Input) :
+/-- An `update(update_params=False)` that succeeds re-estimates nothing, and it changes no later
+transform / inverse_transform result of the detrender — for ANY batch (later, overlapping, earlier,
+empty): a stretch detrended before it is restored exactly after it (with `detrend_roundtrip`).
+Full strength since repo commit ea521a6 (the origin of the regression's time axis is remembered at fit). -/
+theorem detrend_update_without_refit_keeps_trend (reg : Reg) (s s' : Det) (inp0 : Input)
+    (hupd : detUpdate s inp0 false = (s', .ok)) (inv : Bool) (inp : Input) :
     (detApply reg s' inv inp).2 = (detApply reg s inv inp).2 := by
   unfold detUpdate at hupd
   by_cases hf : s.fitted = true
   · simp only [hf, Bool.not_true, Bool.false_eq_true, ↓reduceIte] at hupd
-    cases hcs : checkSeries true (.series z) with
+    cases hcs : checkSeries true inp0 with
     | error e => simp [hcs] at hupd
     | ok z' =>
-      have hz' := checkSeries_series_ok true z z' hcs
-      subst hz'
-      simp only [hcs, hfc, Bool.not_false, ↓reduceIte, Prod.mk.injEq, and_true] at hupd
-      subst hupd
-      obtain ⟨o', ho', hlab⟩ : ∃ o', (if z'.isEmpty = true then fc.y else combineFirst z' fc.y).head? = some o' ∧ o'.1 = o.1 := by
-        split
-        · exact ⟨o, ho, rfl⟩
-        · exact combineFirst_head z' fc.y o ho hlate
-      unfold detApply
-      simp only [hf, Bool.not_true, Bool.false_eq_true, ↓reduceIte, hfc]
-      cases checkSeries false inp with
-      | error e => rfl
-      | ok zz =>
-        simp only
-        split
-        · rfl
-        · simp only [ho, ho']
-          cases fc.train with
-          | none => rfl
-          | some tv =>
-            obtain ⟨ol, ov⟩ := o
-            obtain ⟨ol', ov'⟩ := o'
-            simp only at hlab
-            subst hlab
-            rfl
+      simp only [hcs] at hupd
+      cases hfc : s.fc with
+      | none => simp [hfc] at hupd
+      | some fc =>
+        simp only [hfc, Bool.not_false, ↓reduceIte, Prod.mk.injEq, and_true] at hupd
+        subst hupd
+        unfold detApply
+        simp only [hf, Bool.not_true, Bool.false_eq_true, ↓reduceIte, hfc]
+        cases checkSeries false inp with
+        | error e => rfl
+        | ok zz =>
+          simp only
+          split
+          · rfl
+          · cases fc.train with
+            | none => rfl
+            | some tv => cases fc.origin <;> rfl
   · simp [hf] at hupd
 
 /-- the detrender fitted on labels 3, 4 (values 14, 16: trend 14 + 2·(t − 3)) -/
 def witnessDet : Det := (detFit { degree := 1 } (.series [(3, some 14), (4, some 16)])).1
-
-/-- NEGATION of the full statement: `update(update_params=False)` with the single earlier observation
-at label -1 succeeds, nothing is re-estimated, and the trend removed at label 5 changes from 18 to 26. -/
-theorem detrend_update_earlier_batch_moves_trend :
-    (detApply polyReg witnessDet false (.series [(5, some (-30))])).2 = .ser [(5, some (-48))]
-    ∧ (detUpdate witnessDet (.series [(-1, some 30)]) false).2 = .ok
-    ∧ (detApply polyReg (detUpdate witnessDet (.series [(-1, some 30)]) false).1 false
-        (.series [(5, some (-30))])).2 = .ser [(5, some (-56))] := by
-  refine ⟨?_, ?_, ?_⟩ <;> decide +kernel
 
 -- =============================================================================================
 -- 4. Box-Cox / log / tabular adaptor around an uninterpreted library map
@@ -601,6 +576,13 @@ example : (desTransform witnessDes false (.series [(-3, some 5), (-2, some 5)]))
   decide +kernel
 example : Fresh (.det { degree := 1 }) := rfl
 example : Tagged (.col { kind := .boxcox }) := trivial
+-- regression: the witness of the defect fixed by ea521a6 (an earlier batch, update_params=False) now keeps the trend
+example : (detUpdate witnessDet (.series [(-1, some 30)]) false).2 = .ok := by decide +kernel
+example : (detApply polyReg (detUpdate witnessDet (.series [(-1, some 30)]) false).1 false
+    (.series [(5, some (-30))])).2 = .ser [(5, some (-48))] := by decide +kernel
+-- the ORIGINAL code read the origin from the first remembered time point at predict time: after that update the
+-- first remembered label is -1, so label 5 sat at position 6 instead of 2 and the trend removed was 26 instead of 18
+example : polyReg 1 [14, 16] (5 - (-1)) = 26 ∧ polyReg 1 [14, 16] (5 - 3) = 18 := by decide +kernel
 example : (step polyReg (.det { degree := 1 }) (.fit (.series [(5, some 1), (6, some 3), (7, some 2)]) {})).2 = .ok := by
   decide +kernel
 
